@@ -49,6 +49,7 @@ func simID(i int) identity.AgentID {
 		id[k] = byte(0x11*(i+1) + k*7)
 	}
 	id[0] = byte(0xA0 + i)
+	id[1], id[2] = byte(i>>8), byte(i) // unique beyond 256 nodes
 	return id
 }
 
@@ -71,6 +72,13 @@ type simFrame struct {
 	NRoutes   int
 	Routes    []protocol.Route
 	DecodeErr string // non-empty when the harness could not decode what was sent
+
+	// Hops is the harness's own count of the links this announcement has crossed when this
+	// frame arrives: a frame emitted while a frame of the same type was being handled (a
+	// forward) has the hops of that frame + 1; any other frame starts at the length of its
+	// wire path (1 for an origin's announcement; a replay continues the stored path). Unlike
+	// len(Path) it does not depend on how the forwarder encoded the path.
+	Hops int
 }
 
 func (f *simFrame) String() string {
@@ -170,6 +178,8 @@ type simNet struct {
 
 	OnDeliver func(d *simDelivery)
 	OnExpire  func(node int)
+
+	cur *simFrame // frame being handled right now (nil outside Deliver)
 }
 
 // simSetMaxHops sets FloodConfig.MaxHops by reflection (the field exists only on trees where
@@ -293,6 +303,11 @@ func (s *simNet) enqueue(from, to int, wire []byte) {
 	f := &simFrame{ID: s.nextID, From: from, To: to, Wire: wire}
 	s.nextID++
 	s.describe(f)
+	if s.cur != nil && s.cur.Type == f.Type && s.cur.To == from {
+		f.Hops = s.cur.Hops + 1
+	} else if f.Hops = len(f.Path); f.Hops < 1 {
+		f.Hops = 1
+	}
 	s.q[from][to] = append(s.q[from][to], f)
 	s.Sent = append(s.Sent, f)
 	s.tr("send %s", f)
@@ -441,6 +456,8 @@ func (s *simNet) Deliver(from, to int) *simDelivery {
 	d := &simDelivery{F: f, SentStart: len(s.Sent)}
 	rcv := s.Nodes[to]
 	peer := s.Nodes[from].ID
+	s.cur = f
+	defer func() { s.cur = nil }()
 	fr, err := protocol.Decode(f.Wire)
 	if err != nil {
 		d.Dropped = "frame: " + err.Error()
